@@ -1,6 +1,7 @@
 import PGV.Driver.Common
 import PGV.Driver.C14
 import PGV.Driver.C09
+import PGV.Driver.Walk
 
 open PGV PGV.Driver
 
@@ -10,6 +11,11 @@ def dispatch (line : String) : String :=
   | some [] => badRequest "empty"
   | some (Sexp.atom op :: rest) =>
     let (args, impl) := splitAtBar rest
+    let w : Option Walk.Resp :=
+      match op with
+      | "struct" | "var" | "map" | "url" => Walk.handle op args impl
+      | _ => none
+    if let some w := w then w.render else
     let r : Option Reply :=
       match op with
       | "split" | "parse" | "gen" | "rmset" | "rt" => C14.handle op args impl
